@@ -1,6 +1,7 @@
 import N0Verif.Proofs.CsvFile
 import N0Verif.Proofs.CsvEnc
 import N0Verif.Proofs.CsvReader
+import N0Verif.Proofs.CsvFileBin
 /-!
 # C14 — loading a CSV file reproduces the saved table under every header mode
 
@@ -783,6 +784,117 @@ theorem C14_keep_empty_lines_positional (d : Char) (hd : GoodDelim14 d) (eol : S
     | nil => exact absurd rfl hne
     | cons _ _ => rfl
   simp [List.map_map, this]
+
+/-! ## the strip options in binary read mode (finding C14-g)
+
+In binary mode the cells are `bytes`; `strip_field` / `strip_line` call `bytes.strip()`, which
+removes ASCII blanks only (`asciiStrip`), while text mode removes every `str.isspace()` character
+(`pyStrip`: also `\x1c`–`\x1f`, U+0085, U+00A0, U+2003 …).  So "binary read mode yields the same
+table as encoded bytes" holds under the strip options exactly outside the class of C14-g
+(`EdgeAscii`: `str.strip()` removes from the cell what `bytes.strip()` removes). -/
+
+/-- a cell outside the class of C14-g: `str.strip()` removes from it exactly what `bytes.strip()`
+removes (no `\x1c`–`\x1f`, U+0085, U+00A0 … at an edge once the ASCII blanks are gone) -/
+def EdgeAscii (f : Str) : Prop := pyStrip f = asciiStrip f
+
+/-- **C14 (strip_field, binary read mode: what the code does).**  On any byte table,
+`strip_field=True` with `read_mode='b'` yields the table of `bytes.strip()`-ed names and cells. -/
+theorem C14_strip_field_binary (d : Char) (hd : GoodDelim14 d) (eol : Str) (he : Eol eol)
+    (hdr : List Str) (hne : hdr ≠ []) (hnd : (hdr.map asciiStrip).Nodup) (rows : List (List Str))
+    (hc : NoBreakRows (hdr :: rows))
+    (o : Opts) (hp : StripFieldBin o d) (hcn : o.columnNames = .none)
+    (hm : FromFile o (hdr.map asciiStrip)) :
+    records (loadCsv o (fileOf false d eol (some hdr) rows))
+      = .ok ((dataRows rows).map
+          (fun r => zipPad ((hdr.map asciiStrip).map Key.name) (r.map asciiStrip))) := by
+  obtain ⟨n, hn, hcn', hdec⟩ := fromFile_norm o (hdr.map asciiStrip) hcn hm
+  unfold fileOf withBom
+  simp only [Bool.false_eq_true, if_false]
+  rw [saveCsv_header d eol hdr rows hne,
+    csvb_loadCsv_strip_field o d hd.1 hp eol he (hdr :: rows) hc n hn hdr
+      (dataRows rows) (dataRows_cons_ne hdr rows hne),
+    outcome_header o n _ _ hdec hnd hcn', List.map_map]
+  rfl
+
+/-- the full statement "binary read mode yields the same table as encoded bytes" under
+`strip_field=True`: reading the encoded bytes of a saved table in binary mode gives the records
+of `C14_strip_field` (the table of `str.strip()`-ed names and cells), encoded.  **False**
+(`C14_binary_strip_field_cex`, finding C14-g); proved outside the class of the finding as
+`C14_binary_strip_field_partial`. -/
+def C14_binary_strip_field_stmt : Prop :=
+  ∀ (e : Char → Str), AsciiTransparent e → ∀ (d : Char), GoodDelim14 d → d.toNat < 128 →
+  ∀ (eol : Str), Eol eol → ∀ (hdr : List Str), hdr ≠ [] →
+    (hdr.map (fun f => encS e (pyStrip f))).Nodup → ∀ (rows : List (List Str)),
+    NoBreakRows (hdr :: rows) →
+  ∀ (o : Opts), StripFieldBin o d → o.columnNames = .none →
+    FromFile o (hdr.map (fun f => encS e (pyStrip f))) →
+    records (loadCsv o (encS e (fileOf false d eol (some hdr) rows)))
+      = .ok ((dataRows rows).map (fun r =>
+          zipPad ((hdr.map (fun f => encS e (pyStrip f))).map Key.name)
+            (r.map (fun f => encS e (pyStrip f)))))
+
+/-- **C14 (binary read mode = encoded text-mode table, strip_field; outside C14-g).**  For every
+ASCII-transparent byte encoder and every table none of whose names / cells has a non-ASCII-blank
+`str.isspace()` character at an edge (`EdgeAscii`), `strip_field=True` in binary mode on the
+encoded file yields the text-mode records of `C14_strip_field`, encoded. -/
+theorem C14_binary_strip_field_partial (e : Char → Str) (he : AsciiTransparent e) (d : Char)
+    (hd : GoodDelim14 d) (hda : d.toNat < 128) (eol : Str) (heol : Eol eol)
+    (hdr : List Str) (hne : hdr ≠ [])
+    (hnd : (hdr.map (fun f => encS e (pyStrip f))).Nodup) (rows : List (List Str))
+    (hc : NoBreakRows (hdr :: rows))
+    (hedge : ∀ r ∈ hdr :: rows, ∀ f ∈ r, EdgeAscii f)
+    (o : Opts) (hp : StripFieldBin o d) (hcn : o.columnNames = .none)
+    (hm : FromFile o (hdr.map (fun f => encS e (pyStrip f)))) :
+    records (loadCsv o (encS e (fileOf false d eol (some hdr) rows)))
+      = .ok ((dataRows rows).map (fun r =>
+          zipPad ((hdr.map (fun f => encS e (pyStrip f))).map Key.name)
+            (r.map (fun f => encS e (pyStrip f))))) := by
+  have hcell : ∀ r ∈ hdr :: rows, r.map (fun f => encS e (pyStrip f))
+      = (r.map (encS e)).map asciiStrip := by
+    intro r hr
+    rw [List.map_map]
+    apply List.map_congr_left
+    intro f hf
+    simp only [Function.comp]
+    rw [csvb_asciiStrip_encS e he f, ← hedge r hr f hf]
+  have hh := hcell hdr (by simp)
+  rw [C14_encoding_commutes e he d hda eol heol (some hdr) rows]
+  simp only [Option.map_some]
+  have hc' : NoBreakRows (hdr.map (encS e) :: encRows e rows) := by
+    have := noBreakRows_enc e he (hdr :: rows) hc
+    simpa [encRows] using this
+  rw [hh] at hnd hm ⊢
+  rw [C14_strip_field_binary d hd eol heol (hdr.map (encS e)) (by simpa using hne) hnd
+    (encRows e rows) hc' o hp hcn hm, csvb_dataRows_encRows]
+  congr 1
+  unfold encRows
+  rw [List.map_map]
+  apply List.map_congr_left
+  intro r hr
+  have hr' : r ∈ hdr :: rows := by
+    have : r ∈ rows := by
+      unfold dataRows at hr
+      exact (List.mem_filter.mp hr).1
+    simp [this]
+  simp only [Function.comp]
+  rw [hcell r hr']
+
+private def nbsp : Char := Char.ofNat 0xA0
+private def bC2 : Char := Char.ofNat 0xC2
+private def fsep : Char := Char.ofNat 0x1C
+
+/-- **C14-g, on the model** (the code does the same: replayed by the harness).  The file
+`x\xa0` + LF (UTF-8 bytes `78 C2 A0 0A`), `strip_field=True`: text mode yields the cell `x`,
+binary mode the bytes `78 C2 A0` — not the encoding of `x`.  The file `\x1c` + LF with
+`strip_line=True`: text mode sees only blank lines (`EOFError`), binary mode yields a record. -/
+theorem C14_binary_strip_cex :
+    records (loadCsv { stripField := true } ['x', nbsp, '\n']) = .ok [[(.pos 0, some ['x'])]]
+    ∧ records (loadCsv { stripField := true, binary := true } ['x', bC2, nbsp, '\n'])
+        = .ok [[(.pos 0, some ['x', bC2, nbsp])]]
+    ∧ loadCsv { stripLine := true } [fsep, '\n'] = .error .EOFError
+    ∧ records (loadCsv { stripLine := true, binary := true } [fsep, '\n'])
+        = .ok [[(.pos 0, some [fsep])]] :=
+  ⟨by decide, by decide, by decide, by decide⟩
 
 section NonVacuityReaders
 private def hdrP : List Str := [[' ', 'a'], ['b', ' ', ' ']]
